@@ -565,6 +565,27 @@ def aggPairWritesHeadOnly (env : Env) (blob : Bytes) : List (Bytes × Bytes) :=
   ++ [(aggErc20Key (env.pairErc20 blob), env.pairId blob)]
 def initAggHeadOnly (env : Env) (pairs : List Bytes) : Store := setAll [] (pairs.flatMap (aggPairWritesHeadOnly env))
 
+/-! ## the registry operations behind the governance / message handlers, as store operations -/
+
+/-- RegisterCoin / RegisterERC20 (and the second half of AddCoin, ToggleTokenRelay, UpdateTokenPairERC20): a pair whose id,
+contract and denominations are all unused is written with its index entries -/
+def aggSetGuard (env : Env) (s : Store) (b : Bytes) : Bool :=
+  (get s (aggPairKey (env.pairId b))).isNone && (get s (aggErc20Key (env.pairErc20 b))).isNone
+  && (env.pairDenoms b).all (fun d => (get s (aggDenomKey d)).isNone)
+  && decide (env.pairDenoms b).Nodup && !(env.pairDenoms b).isEmpty && env.validPair b
+
+/-- `DeleteTokenPair` of a STORED pair (self-destruct clean-up; first half of AddCoin / Toggle / UpdateTokenPairERC20, which
+re-write the pair under its own or a new id) -/
+def aggDelGuard (env : Env) (s : Store) (b : Bytes) : Bool := get s (aggPairKey (env.pairId b)) == some b
+
+inductive AggOp where
+  | set (blob : Bytes)
+  | del (blob : Bytes)
+
+def applyAgg (env : Env) (s : Store) : AggOp → Store
+  | .set b => if aggSetGuard env s b then aggSetPair env s b else s
+  | .del b => if aggDelGuard env s b then aggDelPair env s b else s
+
 /-! ## x/rvesting InitGenesis with `From` funding (bank balances as a function address → denomination → amount) -/
 
 abbrev Balances := Bytes → Bytes → Nat
